@@ -77,6 +77,37 @@ def repo_changed():
         return False
 
 
+def repo_fingerprint(pid):
+    """which code this run was tied to: commit, dirtiness and a hash of the property's anchor files"""
+    out = {"path": REPO}
+    try:
+        out["head"] = subprocess.run(["git", "-C", REPO, "rev-parse", "HEAD"], capture_output=True, text=True).stdout.strip()
+        out["uncommitted_changes_under_pydcop"] = subprocess.run(
+            ["git", "-C", REPO, "diff", "--quiet", "HEAD", "--", "pydcop"]).returncode != 0
+        anchors = []
+        for line in open(os.path.join(VERIF, "properties.jsonl")):
+            p = json.loads(line)
+            if p["id"] == pid:
+                anchors = p["anchors"]["files"]
+        h = {}
+        for a in anchors:
+            full = os.path.join(REPO, a)
+            files = []
+            if os.path.isdir(full):
+                for root, _, fns in os.walk(full):
+                    files += [os.path.join(root, f) for f in fns if f.endswith(".py")]
+            elif os.path.exists(full):
+                files = [full]
+            m = hashlib.sha256()
+            for f in sorted(files):
+                m.update(open(f, "rb").read())
+            h[a] = m.hexdigest()[:16]
+        out["anchor_sha256"] = h
+    except Exception as e:
+        out["error"] = str(e)
+    return out
+
+
 def dep_closure(mods):
     """PyDcop modules reachable from `mods` through `From PyDcop Require ...` lines."""
     import re
@@ -443,6 +474,7 @@ def pipeline(mod, pid, tier, seed, args, work, t0):
             "known_finding_hits": {k: len(v) for k, v in known_hits.items()},
             "histogram": _cap(hist, 20000),
             "modelled_vs_proved": getattr(mod, "MODELLED", ""),
+            "repo": repo_fingerprint(pid),
             "notes": notes[:10],
         },
         "assumptions": list(getattr(mod, "ASSUMPTIONS", [])),
